@@ -18,7 +18,8 @@ Print Assumptions C18_relay_verbatim.
 
 (* fault containment: whatever else the upstream does, the downstream gets a single well-formed 43 *)
 Theorem C18_fault_43 : forall cap u,
-  (forall b, u <> UStream b None) \/ (exists b k, u = UStream b None /\ Spec.C13.spec_result false cap (fun _ _ => None) b None = RErr k) ->
+  u = UConnectFail \/ u = UTimeout \/
+  (exists b exc k, u = UStream b exc /\ Spec.C13.spec_result false cap (fun _ _ => None) b exc = RErr k) ->
   prefixb (lit "43 ") (relay cap u) = true /\ response_shape (relay cap u) = true.
 Proof. exact C18_proofs.fault_43. Qed.
 Print Assumptions C18_fault_43.
